@@ -77,8 +77,22 @@ SetAct(m, a) == SetThread(m, <<a>> \o Tail(CurThread(m)))
 Count(m, n) == Get(m.cnt, n, 0)
 Visit(m, n) == [m EXCEPT !.cnt = Put(m.cnt, n, Count(m, n) + 1), !.tof = Put(m.tof, n, m.turn)]
 
-\* the knot (first component) a body belongs to, for the "entered from outside" rule
-Owner(b) == Prog.owner[b]
+\* the counted containers (knot, stitch) a body lies in, outermost first - for the "entered from outside" rule
+InChain(b) == Prog.ochain[b]
+\* the containers entered on the way to the start of a flow: the knot, then the stitch (for a knot that consists of
+\* stitches only: its first stitch)
+RECURSIVE VisitAll(_, _, _)
+VisitAll(m, chain, from) ==
+  IF chain = <<>> THEN m
+  ELSE VisitAll(IF \E i \in DOMAIN from : from[i] = Head(chain) THEN m ELSE Visit(m, Head(chain)), Tail(chain), from)
+CurChain(m) == LET a == CurAct(m) IN IF a.fr = <<>> THEN <<>> ELSE InChain(Head(a.fr).b)
+\* entering flow t from where the machine stands now: a container is counted when the position it is entered from
+\* is not inside it already.  A knot that consists of stitches hands over to its first stitch from its own level:
+\* that stitch is entered from outside even when the divert to the knot was written inside it.
+Enter(m, t) ==
+  LET from == CurChain(m)
+      eff == IF Knot(t).auto THEN SelectSeq(from, LAMBDA c : c = Knot(t).chain[1]) ELSE from IN
+  VisitAll(m, Knot(t).chain, eff)
 
 Fail(m, kind) == [m EXCEPT !.err = kind, !.st = "end", !.th = << <<>> >>]
 
@@ -159,9 +173,8 @@ Goto(m, target) ==
        \* the current thread is over; an older thread goes on, otherwise the turn stops
        IF Len(m.th) > 1 THEN [m EXCEPT !.th = Tail(m.th)] ELSE [m EXCEPT !.st = "stopping", !.th = << <<>> >>, !.safe = TRUE]
   ELSE IF ~IsKnot(target) THEN Fail(m, "divert target not found")
-  ELSE LET a == CurAct(m)
-           from == IF a.fr = <<>> THEN "" ELSE Owner(Head(a.fr).b)
-           m1 == IF from # target THEN Visit(m, target) ELSE m IN
+  ELSE LET m1 == Enter(m, target)
+           a == CurAct(m1) IN
        SetAct(m1, [a EXCEPT !.fr = <<Frame(Knot(target).body)>>])
 
 \* assignment to a temporary of the current activation if there is one of that name, else to the global
@@ -237,7 +250,7 @@ Exec(m, s) ==
                           vals == [i \in 1..Len(s.args) |-> Eval(m, s.args[i])]
                           temps == [n \in {fn.params[i] : i \in 1..Len(fn.params)} |->
                                       vals[CHOOSE i \in 1..Len(fn.params) : fn.params[i] = n]]
-                          m1 == Visit(Advance(m), s.f)
+                          m1 == Advance(Enter(m, s.f))
                           act == [kind |-> "fn", fr |-> <<Frame(fn.body)>>, temps |-> temps, fnStart |-> Len(m.out) + 1,
                                   fnStart0 |-> Len(m.out) + 1, cont |-> [mode |-> s.mode, x |-> s.x, e |-> s.e]] IN
                       IF \E i \in 1..Len(vals) : vals[i].t = "error" THEN Fail(m, "argument")
@@ -261,12 +274,12 @@ Exec(m, s) ==
     [] s.k = "div" -> Goto(m, s.t)
     [] s.k = "gl"  -> Advance(Visit(m, s.label))
     [] s.k = "tun" -> IF ~IsKnot(s.t) THEN Fail(m, "tunnel target not found")
-                      ELSE LET m1 == Visit(Advance(m), s.t) IN
+                      ELSE LET m1 == Advance(Enter(m, s.t)) IN
                            SetThread(m1, <<Act("tunnel", Knot(s.t).body)>> \o CurThread(m1))
     [] s.k = "tret" -> LET t == CurThread(m) IN
                        IF Head(t).kind # "tunnel" THEN Fail(m, "tunnel return outside a tunnel") ELSE SetThread(m, Tail(t))
     [] s.k = "thr" -> IF ~IsKnot(s.t) THEN Fail(m, "thread target not found")
-                      ELSE LET m1 == Visit(Advance(m), s.t)
+                      ELSE LET m1 == Advance(Enter(m, s.t))
                                t == CurThread(m1)
                                a == Head(t)
                                fork == <<[a EXCEPT !.fr = <<Frame(Knot(s.t).body)>>, !.kind = IF a.kind = "root" THEN "thread" ELSE a.kind]>> \o Tail(t) IN
